@@ -312,3 +312,19 @@ pub fn allocated() -> u64 {
 pub fn live() -> i64 {
   unsafe { LIVE_PROBE.map(|f| f()).unwrap_or(0) }
 }
+
+// ---------- a DomainParticipant for drivers that need one as a factory ----------
+/// `DomainParticipant::new` can time out on a heavily loaded machine ("Discovery thread channel error: Timeout");
+/// that is the environment, so the drivers retry instead of reporting it.  Domain ids used by drivers stay below 101
+/// so that the RTPS well-known ports are outside the kernel's ephemeral port range.
+pub fn participant(domain: u16) -> crate::DomainParticipant {
+  let mut last = String::new();
+  for attempt in 0..40u64 {
+    match crate::DomainParticipant::new(domain) {
+      Ok(dp) => return dp,
+      Err(e) => last = format!("{e:?}"),
+    }
+    std::thread::sleep(std::time::Duration::from_millis(250 * (attempt + 1).min(8)));
+  }
+  panic!("DomainParticipant::new({domain}) failed 40 times: {last}");
+}
